@@ -275,6 +275,7 @@ def check(prop: str, tier: str, seed: int, replay: str | None = None) -> int:
             else:
                 path = replay
             print(f'  witness [{key}] x{len(vs)}: {v["msg"][:200]}')
+            print(f'      case: {v.get("case")}')
             for dk, dv in list(v.get('detail', {}).items())[:4]:
                 print(f'      {dk}: {str(dv)[:300]}')
             print(f'VIOLATION property={prop} replay={path}')
